@@ -162,4 +162,22 @@ pub(crate) mod verif_swm {
         kani::cover!(done > 1 && rt > 0);
     }
     reader_harness!(swm_read_stat_avg_rt_2x512_full, body_read_stat_avg_rt, 2, 9, 2, 2, 3);
+
+    /// interval_s(): the read interval in seconds as an f64, for EVERY u32 interval (fractional seconds included);
+    /// together with the sum obligations this pins the per-second rate qps = sum / interval_s
+    #[kani::proof]
+    #[kani::unwind(3)]
+    #[kani::stub(anyhow::Error::msg, vs::no_error_expected)]
+    #[kani::stub(std::backtrace::Backtrace::capture, std::backtrace::Backtrace::disabled)]
+    #[kani::stub(crate::core::system_metric::get_total_memory_size, vs::any_total_memory)]
+    fn swm_interval_s_any_interval() {
+        let im: u32 = kani::any();
+        let m = SlidingWindowMetric { bucket_len_ms: 1, sample_count: 1, interval_ms: im, inner: Arc::new(mk_ring_from_slots::<1>(512, &[SlotG { empty: true, k: 0, v: crate::core::stat::verif_mb::RESET_VIEW }])) };
+        let r = m.interval_s();
+        assert!(r.to_bits() == (im as f64 / 1000.0).to_bits());
+        assert!(m.interval_ms() == im);
+        std::mem::forget(m);
+        kani::cover!(im == 2500);
+        kani::cover!(im == 500);
+    }
 }
